@@ -48,6 +48,7 @@ From CG Require Import Spec.InvocationsSub.
 From CG Require Import Model.Compiler.
 From CG Require Import Model.Diag.
 From CG Require Import Model.Main.
+From CG Require Import Spec.Undercut.
 (* add new Require lines above this line *)
 Require Import ExtrOcamlBasic ExtrOcamlString.
 Extraction Language OCaml.
@@ -173,5 +174,6 @@ Separate Extraction
   Diag.error_messages
   Diag.warning_messages
   Main.run
+  Undercut.undercut
   (* add new roots above this line *)
   Prelude.pow2.
